@@ -28,6 +28,7 @@ type Event struct {
 	Role  string        `json:"role"`
 	A     []interface{} `json:"a"`
 	Gated bool          `json:"gated"`
+	Panicking bool      `json:"panicking"`
 	Gpt   string        `json:"gpt"`
 	Tag   string        `json:"tag"`
 	N     int           `json:"n"`
